@@ -141,11 +141,12 @@ func genC12(g *Gen) {
 		if len(ps) > 0 {
 			last = int(ps[len(ps)-1])
 		}
-		return []string{"[]", "[-5]", "[0]", "[1]", L(Int(last)), L(Int(last + 1)), L(Int(last + 2)), "[63]", "[64]", "[65]", "[128]", "[129]",
+		// negative n below -63: without the "n < 0 => 0" clamp, (n+63)>>6 is negative and make panics
+		return []string{"[]", "[-5]", "[-64]", "[-65]", "[-1000]", "[-2147483648]", "[0]", "[1]", L(Int(last)), L(Int(last + 1)), L(Int(last + 2)), "[63]", "[64]", "[65]", "[128]", "[129]",
 			L(Int((last+64)/64*64 + 1)), L(Int(last + 300))}
 	}
 
-	// (1) Of exhaustive: every subset of {0,1,62,63,64,65,127,128} x 14 choices of n
+	// (1) Of exhaustive: every subset of {0,1,62,63,64,65,127,128} x 18 choices of n
 	univ := []int32{0, 1, 62, 63, 64, 65, 127, 128}
 	for m := 0; m < 1<<uint(len(univ)); m++ {
 		var ps []int32
@@ -158,7 +159,7 @@ func genC12(g *Gen) {
 			of(ps, o, "of-exh")
 		}
 	}
-	g.Exhaust = append(g.Exhaust, "Of and ToArray(Of): every subset of {0,1,62,63,64,65,127,128} x n in {absent,-5,0,1,last,last+1,last+2,63,64,65,128,129,next word+1,last+300}")
+	g.Exhaust = append(g.Exhaust, "Of and ToArray(Of): every subset of {0,1,62,63,64,65,127,128} x n in {absent,-5,-64,-65,-1000,-2^31,0,1,last,last+1,last+2,63,64,65,128,129,next word+1,last+300}")
 
 	// (2) Of random: ascending lists in 5 styles (dense, small gaps, word boundaries, gaps > 3 words, duplicates)
 	no := g.N(1200, 30000)
